@@ -345,16 +345,16 @@ fn handle_one_request(
             PreRoutingAction::Proceed => {}
             PreRoutingAction::Drop => {
                 // the hook answered in place of a handler: same connection handling as below
-                let client_requested_close = request.headers.is_connection_close();
+                if request.headers.is_connection_close() || !response.keep_alive {
+                    // closing anyway: do not wait for a body the client may never send
+                    return Ok(false);
+                }
                 // discard the unread body so that the next request is parsed from the right place
                 drop(
                     BodyReader::from_request(&buf[request.buf_offset..], stream, &request.headers)
                         .on_failure(&body_failed),
                 );
-                if client_requested_close || body_failed.load(Ordering::Relaxed) {
-                    return Ok(false);
-                }
-                return Ok(response.keep_alive);
+                return Ok(!body_failed.load(Ordering::Relaxed));
             }
         }
     }
